@@ -3,11 +3,14 @@ package main
 import (
 	"bytes"
 	"crypto/sha256"
+	"encoding/binary"
 	"encoding/hex"
 	"fmt"
 
 	"acra-vh/vh"
 
+	"github.com/cossacklabs/acra/acrablock"
+	"github.com/cossacklabs/acra/acrastruct"
 	"github.com/cossacklabs/acra/crypto"
 )
 
@@ -66,6 +69,148 @@ func genPlain(r *vh.Rng, pool [][]byte, big bool) ([]byte, string) {
 	return r.Bytes(n), "random"
 }
 
+// ---- what "already is a protected value" means, decided by the harness itself (never by asking the code under test):
+// a whole AcraStruct, an AcraBlock at offset 0, or a serialized container whose declared length fits the data and
+// whose inner bytes are an envelope of the kind its id byte names. Everything else is a plaintext, however much
+// its first bytes resemble a header, and has to be protected and come back.
+
+func c01IsAcraStruct(x []byte) bool {
+	min := acrastruct.GetMinAcraStructLength()
+	if len(x) < min || !bytes.Equal(x[:len(acrastruct.TagBegin)], acrastruct.TagBegin) {
+		return false
+	}
+	return binary.LittleEndian.Uint64(x[min-acrastruct.DataLengthSize:min]) == uint64(len(x)-min)
+}
+
+func c01IsAcraBlockAtStart(x []byte) bool {
+	if len(x) < acrablock.AcraBlockMinSize {
+		return false
+	}
+	if !bytes.Equal(x[:acrablock.TagBeginSize], acrastruct.TagBegin[:acrablock.TagBeginSize]) {
+		return false
+	}
+	rest := binary.LittleEndian.Uint64(x[acrablock.RestAcraBlockLengthPosition : acrablock.RestAcraBlockLengthPosition+acrablock.RestAcraBlockLengthSize])
+	if rest < uint64(acrablock.AcraBlockMinSize-acrablock.TagBeginSize) || rest > uint64(len(x)-acrablock.TagBeginSize) {
+		return false
+	}
+	return x[acrablock.KeyEncryptionKeyTypePosition] == byte(acrablock.KeyEncryptionBackendTypeSecureCell) &&
+		x[acrablock.DataEncryptionTypePosition] == byte(acrablock.DataEncryptionBackendTypeSecureCell)
+}
+
+func c01IsContainer(x []byte) bool {
+	hdr := crypto.SerializedContainerMinSize
+	if len(x) <= hdr || !bytes.Equal(x[:len(crypto.TagBegin)], crypto.TagBegin) {
+		return false
+	}
+	total := binary.LittleEndian.Uint64(x[len(crypto.TagBegin) : len(crypto.TagBegin)+crypto.SerializedContainerLengthSize])
+	if total < uint64(hdr) || total > uint64(len(x)) {
+		return false
+	}
+	inner := x[hdr:int(total)]
+	switch x[hdr-1] {
+	case crypto.AcraStructEnvelopeID:
+		return c01IsAcraStruct(inner)
+	case crypto.AcraBlockEnvelopeID:
+		return c01IsAcraBlockAtStart(inner)
+	}
+	return false
+}
+
+// c01IsProtectedValue: the pass-through clause of the property applies to x.
+func c01IsProtectedValue(x []byte) bool {
+	return c01IsAcraStruct(x) || c01IsAcraBlockAtStart(x) || c01IsContainer(x)
+}
+
+// ---- plaintexts that begin like a serialized container: tag + 8 length bytes + envelope id + tail
+var c01LookIDs = []byte{crypto.AcraStructEnvelopeID, crypto.AcraBlockEnvelopeID}
+var c01LookLens = []string{"len-exact", "len-random", "len-zero", "len-header", "len-short", "len-long", "len-huge"}
+var c01LookTails = []string{"tail-random", "tail-one-byte", "tail-quotes", "tail-acrablock-like", "tail-container-truncated", "tail-container-corrupted", "tail-container-cut-length-fixed"}
+
+// C01LookalikeCombos is the size of the systematic table walked by c01Lookalike.
+var c01LookalikeCombos = len(c01LookIDs) * len(c01LookLens) * len(c01LookTails)
+
+// c01Lookalike builds entry k of the table id x declared length x tail. real (may be nil) is a genuine serialized
+// container used for the truncated / corrupted tails. The result is a PLAINTEXT unless c01IsProtectedValue says otherwise.
+func c01Lookalike(r *vh.Rng, real []byte, k int) ([]byte, string) {
+	k %= c01LookalikeCombos
+	if k < 0 {
+		k += c01LookalikeCombos
+	}
+	id := c01LookIDs[k%len(c01LookIDs)]
+	lf := c01LookLens[(k/len(c01LookIDs))%len(c01LookLens)]
+	tf := c01LookTails[(k/(len(c01LookIDs)*len(c01LookLens)))%len(c01LookTails)]
+	hdr := crypto.SerializedContainerMinSize
+	var tail []byte
+	keepHeader := false
+	switch tf {
+	case "tail-one-byte":
+		tail = r.Bytes(1)
+	case "tail-quotes": // starts like an AcraStruct
+		tail = append(bytes.Repeat([]byte{'"'}, 8), r.Bytes(r.Intn(200))...)
+	case "tail-acrablock-like": // an AcraBlock header with known backend types whose rest length points past the data
+		body := r.Bytes(r.Intn(60))
+		tail = append([]byte{}, acrastruct.TagBegin[:acrablock.TagBeginSize]...)
+		tail = append(tail, n8(acrablock.AcraBlockMinSize-acrablock.TagBeginSize+len(body)+1+r.Intn(5))...)
+		tail = append(tail, byte(acrablock.KeyEncryptionBackendTypeSecureCell), byte(r.Intn(256)), byte(r.Intn(256)), byte(acrablock.DataEncryptionBackendTypeSecureCell), byte(len(body)), 0)
+		tail = append(tail, body...)
+	case "tail-container-truncated", "tail-container-corrupted", "tail-container-cut-length-fixed":
+		if len(real) > hdr+8 {
+			id = real[hdr-1]
+			tail = append([]byte{}, real[hdr:]...)
+			switch tf {
+			case "tail-container-truncated": // header (with its length) kept, end missing
+				tail = tail[:1+r.Intn(len(tail)-1)]
+				keepHeader = true
+			case "tail-container-corrupted": // header kept, inner tag damaged
+				tail[r.Intn(4)] ^= byte(1 + r.Intn(255))
+				keepHeader = true
+			default: // cut and the declared length made to fit: the inner envelope's own length no longer does
+				tail = tail[:len(tail)-1-r.Intn(min(8, len(tail)-8))]
+				lf = "len-exact"
+			}
+			break
+		}
+		fallthrough
+	default:
+		tf = "tail-random"
+		tail = r.Bytes(1 + r.Intn(120))
+	}
+	x := append(append([]byte{}, crypto.TagBegin...), make([]byte, crypto.SerializedContainerLengthSize)...)
+	x = append(append(x, id), tail...)
+	var l uint64
+	switch lf {
+	case "len-exact":
+		l = uint64(len(x))
+	case "len-zero":
+		l = 0
+	case "len-header":
+		l = uint64(hdr)
+	case "len-short":
+		l = uint64(hdr + 1 + r.Intn(len(tail)))
+	case "len-long":
+		l = uint64(len(x) + 1 + r.Intn(300))
+	case "len-huge":
+		l = ^uint64(0) - uint64(r.Intn(20))
+	default:
+		l = uint64(r.Intn(1 << 16))
+		if r.Bool() {
+			l = binary.LittleEndian.Uint64(r.Bytes(8))
+		}
+	}
+	if keepHeader {
+		copy(x[:hdr], real[:hdr])
+		lf = "len-of-the-real-container"
+	} else {
+		binary.LittleEndian.PutUint64(x[len(crypto.TagBegin):], l)
+	}
+	class := fmt.Sprintf("lookalike id=%02x %s %s", id, lf, tf)
+	if r.Intn(7) == 0 { // the same bytes elsewhere than at offset 0
+		x = append(r.Bytes(1+r.Intn(3)), x...)
+		class += " at-offset"
+	}
+	return x, class
+}
+
 func genAffix(r *vh.Rng) []byte {
 	switch r.Intn(6) {
 	case 0:
@@ -118,19 +263,48 @@ func hx(b []byte) string {
 func runC01(rep *vh.Report, r *vh.Rng, n int, thorough bool) {
 	e := &EnvOps{rep, r}
 	var pool [][]byte
-	for sc := 0; sc < n; sc++ {
+	// after the n ordinary scenarios: the header look-alike table (id x declared length x tail), each entry through a
+	// systematically chosen entry point and envelope kind, always with the searchable operations as well
+	nLook := n/3 + 6
+	lookOff := r.Intn(c01LookalikeCombos)
+	for sc := 0; sc < n+nLook; sc++ {
 		ks := vh.NewKeySet(r, 1+r.Intn(2), 1+r.Intn(2), true)
-		x, class := genPlain(r, pool, thorough)
-		rep.Count("plain:" + class)
-		rep.Count(fmt.Sprintf("len:%d", bucket(len(x))))
+		look := sc >= n
+		var x []byte
+		var class string
 		id := byte(crypto.AcraStructEnvelopeID)
-		if r.Bool() {
-			id = crypto.AcraBlockEnvelopeID
+		entry := 0
+		if look {
+			k := sc - n
+			var real []byte
+			if len(pool) > 0 {
+				real = pool[r.Intn(len(pool))]
+			}
+			// 5 is coprime to the table's factors 2 and 7: consecutive entries differ in id, length form and tail
+			x, class = c01Lookalike(r, real, lookOff+5*k)
+			rep.Count("plain:lookalike")
+			rep.Count("look:" + class)
+			if (k/3)%2 == 1 {
+				id = crypto.AcraBlockEnvelopeID
+			}
+			entry = k % 3
+		} else {
+			x, class = genPlain(r, pool, thorough)
+			rep.Count("plain:" + class)
+			if r.Bool() {
+				id = crypto.AcraBlockEnvelopeID
+			}
+			entry = r.Intn(3)
 		}
+		rep.Count(fmt.Sprintf("len:%d", bucket(len(x))))
 		lab := fmt.Sprintf("sc%d %s id=%02x len=%d", sc, class, id, len(x))
+		// what the property calls "already a protected value" is decided here, not by the code under test
+		isProt := c01IsProtectedValue(x)
+		if isProt {
+			rep.Count("input-is-protected-value")
+		}
 		// protect through one of the entry points (all map to the same model op)
 		var prot vh.Outcome
-		entry := r.Intn(3)
 		switch entry {
 		case 0:
 			prot = e.EncHandler(lab+" EncryptWithHandler", id, ks, x)
@@ -146,6 +320,15 @@ func runC01(rep *vh.Report, r *vh.Rng, n int, thorough bool) {
 			rep.Count("passthrough")
 		}
 		rep.OracleChecks++
+		if looksProtected && !isProt && len(x) != 0 {
+			// pass-through is for protected values only: this plaintext left the protect call in clear
+			rep.Violate("plaintext-passed-through", fmt.Sprintf("entry %d returned a plaintext that is not a protected value unchanged (not encrypted)", entry), lab+" x="+hex.EncodeToString(x))
+		}
+		if isProt && prot.Kind == "ok" && !looksProtected {
+			rep.Violate("double-wrap", fmt.Sprintf("entry %d wrapped a value that already is a protected value", entry), lab+" x="+hex.EncodeToString(x))
+		}
+		passedThrough := looksProtected
+		looksProtected = isProt
 		if prot.Kind == "panic" {
 			rep.Violate("protect-panic", "protect panicked: "+prot.Msg, lab+" x="+hex.EncodeToString(x))
 			continue
@@ -157,7 +340,7 @@ func runC01(rep *vh.Report, r *vh.Rng, n int, thorough bool) {
 			continue
 		}
 		v := prot.Vals[0]
-		if !looksProtected {
+		if !looksProtected && !passedThrough {
 			pool = append(pool, v)
 			if len(pool) > 40 {
 				pool = pool[1:]
@@ -229,7 +412,7 @@ func runC01(rep *vh.Report, r *vh.Rng, n int, thorough bool) {
 			}
 		}
 		// searchable variants
-		if sc%4 == 1 {
+		if sc%4 == 1 || look {
 			s := e.TrEncSearch(lab+" EncryptSearchable", id, ks, x)
 			if s.Kind == "ok" {
 				var d vh.Outcome
@@ -239,7 +422,7 @@ func runC01(rep *vh.Report, r *vh.Rng, n int, thorough bool) {
 					d = e.TrDecSearch(lab+" DecryptSearchable(joined)", id, ks, append(append([]byte{}, s.Vals[1]...), s.Vals[0]...), nil)
 				}
 				rep.OracleChecks++
-				if !bytes.Equal(s.Vals[0], x) && (d.Kind != "ok" || !bytes.Equal(d.Vals[0], x)) {
+				if !isProt && (d.Kind != "ok" || !bytes.Equal(d.Vals[0], x)) {
 					rep.Violate("roundtrip", "searchable round trip failed: "+d.String()[:min(200, len(d.String()))], lab+" x="+hex.EncodeToString(x))
 				}
 			}
